@@ -316,6 +316,8 @@ def run_server(case):
 
         async def handler(stream):
             obs['started'] = loop.time()
+            if a >= 2.0 ** 23:
+                return      # asyncio cannot fire timers up there (time() + 1e-9 == time()): never sleep
             if tf:
                 await stream.send_trailing_metadata()
             try:
